@@ -110,7 +110,8 @@ def reviewedPanicSites : List (Str × Str × Str × Nat) := [
   (cs!"text.rs", cs!"get_text_value", cs!"expect", 1),   -- caller checks has_attr("text"); index within the pattern just matched
   (cs!"text.rs", cs!"text_string", cs!"index", 2),   -- caller checks has_attr("text"); index within the pattern just matched
   (cs!"transform.rs", cs!"Transformer::write_root_svg", cs!"expect", 2),   -- is_some checked in the enclosing match
-  (cs!"transform_attr.rs", cs!"TransformType::from_str", cs!"index", 19)   -- argument counts checked per transform function
+  (cs!"transform_attr.rs", cs!"TransformType::from_str", cs!"index", 19),   -- argument counts checked per transform function
+  (cs!"types.rs", cs!"svg_number_list", cs!"index", 11)   -- every index is guarded by `i < chars.len()` (or follows the early return); the slice ends at i <= len
 ]
 
 /-- **no panic site outside the reviewed list**: the table regenerated from the source equals it -/
